@@ -1,6 +1,7 @@
 # C11 -- a crash during a snapshot never damages previously persisted data
 import itertools, random, re
 from nodegen import *
+from common import build_binary
 import crash
 
 ID = "C11"
@@ -26,7 +27,17 @@ VALS = ["", "1", "x y", "ü ñ", "v" * 100, "w" * 240, "é" * 130, "ы" * 123 + 
 
 
 def impl_runner(cases, ctx, rundir):
-    return crash.run_cases(cases, ctx.drv, rundir, "crashc11")
+    # every few restarts the real binary is started on a copy of the directory as well and read over TCP
+    rc, out, binary = build_binary()
+    if rc != 0:
+        return {}, ["the nun-db binary does not build: %s" % out[-600:]]
+    return crash.run_cases(cases, ctx.drv, rundir, "crashc11", binary=binary, bin_stride=11)
+
+
+def extra_stats(cases, impl):
+    same = sum(1 for io in impl.values() for a in io.get("aux", []) if a == "#bin same")
+    diff = sum(1 for io in impl.values() for a in io.get("aux", []) if a.startswith("#bin DIFF"))
+    return {"restarts_also_run_with_the_real_binary": same + diff, "binary_differs": diff}
 
 
 augment = crash.augment_case
@@ -127,6 +138,11 @@ def datasets(rest, dbs):
 
 def oracle(case, io, mo):
     fails = []
+    for a in io.get("aux", []):
+        if a.startswith("#bin DIFF"):
+            fails.append(("binary-start-differs", "the real binary started on a crash directory serves something else than the harness's "
+                          "start-up sequence loaded: %s" % a[10:600]))
+            break
     dbs = case[1]
     ks = [parse_k(l) for l in io["obs"] if l.startswith("K ")]
     ks = [k for k in ks if k]
